@@ -19,3 +19,5 @@ func liveNative() int {
 	}
 	return n
 }
+
+func yieldNative() { runtime.Gosched() }
